@@ -66,11 +66,11 @@ DRIVERS = {
              "live": {"C02": "live_c02", "C05": "live_c05"},
              "controls": {"C01": [("olddrain", "Safe")], "C05": [("live_oldcancel", "CancelPrompt")]},
              "gen": ["Gen_IourDriver.cfg", "Gen_IourDriver_z.cfg"]},
-    "poll": {"model": "PollDriver", "quick": ["sss"], "thorough": ["sss", "ssb"],
-             "optional_actions": ("PushBlocking", "PoolRun", "DropChan"),
+    "poll": {"model": "PollDriver", "quick": ["sss", "rw"], "thorough": ["sss", "ssb", "rw", "rrw", "live_rw"],
+             "optional_actions": ("PushBlocking", "PoolRun", "DropChan", "Drain"),
              "live": {"C02": "live_c02", "C05": "live_c05"},
              "controls": {},
-             "gen": ["Gen_PollDriver.cfg", "Gen_PollDriver_sss.cfg"]},
+             "gen": ["Gen_PollDriver.cfg", "Gen_PollDriver_sss.cfg", "Gen_PollDriver_rw.cfg", "Gen_PollDriver_rrw.cfg"]},
 }
 
 
